@@ -41,6 +41,11 @@ def Refines (a b : Block) : Prop :=
   ∀ (N : NumOps) (call : CallFn N) (ρ : ExtOracle N) (k : Nat) (env : Env N) (σ σ' : State N) (c : Ctl N),
     execB call ρ k env a σ = .ok c σ' → execB call ρ k env b σ = .ok c σ'
 
+/-- the same for one number system `N` (the evaluator contracts are relative to `N`) -/
+def RefinesAt (N : NumOps) (a b : Block) : Prop :=
+  ∀ (call : CallFn N) (ρ : ExtOracle N) (k : Nat) (env : Env N) (σ σ' : State N) (c : Ctl N),
+    execB call ρ k env a σ = .ok c σ' → execB call ρ k env b σ = .ok c σ'
+
 theorem refines_refl (b : Block) : Refines b b := fun _ _ _ _ _ _ _ _ h => h
 
 theorem refines_trans {a b c : Block} (h1 : Refines a b) (h2 : Refines b c) : Refines a c :=
@@ -190,10 +195,10 @@ example : Refines (.mk [] none) (Rules.Trivia.removeSpaces (.mk [] none)) := ref
 /-- `remove_unused_while`: for every evaluator that is sound on `good`, if the conditions of the
 removed loops are in `good` and allocate nothing, every error-free run of a block is a run of
 the block without those loops (same outcome, same state, same trace). -/
-theorem remove_unused_while_hook_refines {api : EvalApi} {good : Expr → Prop} (hs : ∀ N, EvalSound N api good)
+theorem remove_unused_while_hook_refines {N : NumOps} {api : EvalApi} {good : Expr → Prop} (hs : EvalSound N api good)
     (stmts : List Stmt) (last : Option Last) (hg : Rules.UnusedWhile.removedGood api good stmts) :
-    Refines (.mk stmts last) (Rules.UnusedWhile.processBlock api (.mk stmts last) ()).1 :=
-  fun N call ρ k env σ σ' c h => Rules.UnusedWhile.processBlock_refines (hs N) call ρ k env stmts last hg σ σ' c h
+    RefinesAt N (.mk stmts last) (Rules.UnusedWhile.processBlock api (.mk stmts last) ()).1 :=
+  fun call ρ k env σ σ' c h => Rules.UnusedWhile.processBlock_refines hs call ρ k env stmts last hg σ σ' c h
 
 -- non-vacuity: a proved-sound evaluator on which the rule fires, with the hypotheses met
 example :
@@ -230,11 +235,12 @@ example : (∀ N, EvalTotal N litApi) ∧
 /-- `remove_unused_if_branch`, statements: for every evaluator sound on `good`, if the conditions it
 decides are in `good` and the dropped ones allocate nothing, every error-free run of a block is a run of
 the block with its `if` statements simplified (removed / replaced by a `do` block / fewer branches). -/
-theorem remove_unused_if_branch_hook_refines {api : EvalApi} {good : Expr → Prop} (hs : ∀ N, EvalSound N api good)
+theorem remove_unused_if_branch_hook_refines {N : NumOps} {api : EvalApi} {good : Expr → Prop}
+    (hs : EvalSound N api good)
     (stmts : List Stmt) (last : Option Last) (hg : Rules.UnusedIfBranch.Sound.stmtsGood api good stmts) :
-    Refines (.mk stmts last) (Rules.UnusedIfBranch.processBlock api (.mk stmts last) ()).1 :=
-  fun N call ρ k env σ σ' c h =>
-    Rules.UnusedIfBranch.Sound.processBlock_refines (hs N) call ρ k env stmts last hg σ σ' c h
+    RefinesAt N (.mk stmts last) (Rules.UnusedIfBranch.processBlock api (.mk stmts last) ()).1 :=
+  fun call ρ k env σ σ' c h =>
+    Rules.UnusedIfBranch.Sound.processBlock_refines hs call ρ k env stmts last hg σ σ' c h
 
 example :
     (Rules.UnusedIfBranch.processBlock litApi
@@ -289,18 +295,54 @@ example : canReturnMultiple (.bin .and (.call (.var "f") none .tuple []) .vararg
 /-- The evaluator the driver runs (`c08Api`: property C08's model of `Evaluator`) meets the contract
 `EvalSound` the rule lemmas above assume, on C08's proved region `H8` (findings F1–F4 excluded), for every
 number system `N` and evaluator primitives `E` that agree (`C08.Agree`): `truthy`, `str`, `single` are
-C08's theorems `truthy_sound`, `evaluate_sound_partial`, `single_sound`. The remaining field — a
-side-effect-free, NON-ALLOCATING evaluation leaves the state exactly untouched — is the explicit
-hypothesis `NoAllocExact` (C08 proves the frame `σ.tables <+: σ'.tables`, not yet equality). -/
-theorem evaluator_contract_from_C08 {N : NumOps} {E : Evaluator.EvalOps N} (A : C08.Agree N E)
-    (hp : NoAllocExact N E) : EvalSound N (c08Api N E) (fun e => C08.h8 E e = true) :=
-  c08_sound A hp
+C08's theorems `truthy_sound`, `evaluate_sound_partial`, `single_sound`, and `pure` (a side-effect-free,
+non-allocating evaluation leaves the state exactly untouched) is `pure_sound_noalloc`. So every
+`EvalSound`-conditional theorem of this file holds for the evaluator model the driver executes. -/
+theorem evaluator_contract_from_C08 {N : NumOps} {E : Evaluator.EvalOps N} (A : C08.Agree N E) :
+    EvalSound N (c08Api N E) (fun e => C08.h8 E e = true) :=
+  c08_sound A
 
--- non-vacuity of `Agree` and of the region: C08's toy instance agrees, and `not nil` is inside `H8`
--- and decided (`NoAllocExact` is the pending C08 obligation — see meta/C01.json)
+-- non-vacuity of `Agree` and of the region: C08's toy instance agrees, and `not nil` is inside `H8` and decided
 example : C08.Agree C08.toyN C08.toyE ∧ C08.h8 C08.toyE (.un .not .nil) = true ∧
     (c08Api C08.toyN C08.toyE).isTruthy (.un .not .nil) = some true :=
   ⟨C08.toy_agree, rfl, rfl⟩
+
+/-- `remove_unused_while` with the evaluator model the driver executes: for agreeing `N`, `E`, when the removed
+loops' conditions are inside `H8` and allocate nothing, the block hook refines. -/
+theorem remove_unused_while_hook_refines_C08 {N : NumOps} {E : Evaluator.EvalOps N} (A : C08.Agree N E)
+    (stmts : List Stmt) (last : Option Last)
+    (hg : Rules.UnusedWhile.removedGood (c08Api N E) (fun e => C08.h8 E e = true) stmts) :
+    RefinesAt N (.mk stmts last) (Rules.UnusedWhile.processBlock (c08Api N E) (.mk stmts last) ()).1 :=
+  remove_unused_while_hook_refines (c08_sound A) stmts last hg
+
+-- non-vacuity: with C08's toy instance, `while 1 > 2 do f() end; g()` loses its loop and meets the hypotheses
+example :
+    (Rules.UnusedWhile.processBlock (c08Api C08.toyN C08.toyE)
+      (.mk [.while_ (.bin .gt (.num 1) (.num 2)) (.mk [.callStmt (.call (.var "f") none .tuple [])] none),
+            .callStmt (.call (.var "g") none .tuple [])] none) ()).1
+      = .mk [.callStmt (.call (.var "g") none .tuple [])] none ∧
+    Rules.UnusedWhile.removedGood (c08Api C08.toyN C08.toyE) (fun e => C08.h8 C08.toyE e = true)
+      [.while_ (.bin .gt (.num 1) (.num 2)) (.mk [.callStmt (.call (.var "f") none .tuple [])] none),
+       .callStmt (.call (.var "g") none .tuple [])] := by
+  refine ⟨rfl, ?_⟩
+  simp only [Rules.UnusedWhile.removedGood, and_true]
+  intro _
+  exact ⟨by decide, by decide⟩
+
+/-- `remove_unused_if_branch` (statements) with the evaluator model the driver executes. -/
+theorem remove_unused_if_branch_hook_refines_C08 {N : NumOps} {E : Evaluator.EvalOps N} (A : C08.Agree N E)
+    (stmts : List Stmt) (last : Option Last)
+    (hg : Rules.UnusedIfBranch.Sound.stmtsGood (c08Api N E) (fun e => C08.h8 E e = true) stmts) :
+    RefinesAt N (.mk stmts last) (Rules.UnusedIfBranch.processBlock (c08Api N E) (.mk stmts last) ()).1 :=
+  remove_unused_if_branch_hook_refines (c08_sound A) stmts last hg
+
+example : C08.Agree C08.toyN C08.toyE ∧
+    Rules.UnusedIfBranch.Sound.stmtsGood (c08Api C08.toyN C08.toyE) (fun e => C08.h8 C08.toyE e = true)
+      [.ifs [(.un .not .true, .mk [.callStmt (.call (.var "f") none .tuple [])] none)] none] := by
+  refine ⟨C08.toy_agree, ?_⟩
+  simp only [Rules.UnusedIfBranch.Sound.stmtsGood, Rules.UnusedIfBranch.Sound.condsGood, and_true]
+  intro _
+  exact ⟨by decide, fun _ => by decide⟩
 
 /-! ### convert_index_to_field (finding F6) -/
 
